@@ -93,6 +93,14 @@ class Forall:
         return f"Forall<{self.name or self.body}>"
 
 
+def LForall(vars, triggers, body, name=""):
+    """a Forall whose instances are guarded DEFINITIONS (range => t == u): the matcher may use
+    the equations of its instances (only widens which instances are generated)"""
+    f = Forall(vars, triggers, body, name)
+    f.liberal = True
+    return f
+
+
 class Theory:
     """A bag of axioms + the lemmas (with their induction obligations) it assumes."""
 
@@ -184,6 +192,14 @@ class ListTheory:
             self.at(self.snoc(l, e), i) == z3.If(i == self.len(l), e, self.at(l, i)),
             f"at.snoc.{name}",
         ).liberal = True
+        self.concat = z3.Function(f"concat_{name}", S, S, S)
+        TH.axiom([l, l2], self.concat(l, l2), self.len(self.concat(l, l2)) == self.len(l) + self.len(l2), f"len.concat.{name}")
+        TH.axiom(
+            [l, l2, i],
+            self.at(self.concat(l, l2), i),
+            self.at(self.concat(l, l2), i) == z3.If(i < self.len(l), self.at(l, i), self.at(l2, i - self.len(l))),
+            f"at.concat.{name}",
+        )
         self._l, self._l2, self._i, self._e = l, l2, i, e
 
     def ext_facts(self, a, b):
@@ -368,6 +384,12 @@ def values_of(elem_sort, key_sort=None):
             z3.Implies(z3.And(0 <= i, i < KT.len(ks)), LT.at(F(ks, va), i) == z3.Select(va, KT.at(ks, i))),
             f"values.at.{tag}",
         )
+        TH.axiom(
+            [ks, va, i],
+            [F(ks, va), KT.at(ks, i)],
+            z3.Implies(z3.And(0 <= i, i < KT.len(ks)), LT.at(F(ks, va), i) == z3.Select(va, KT.at(ks, i))),
+            f"values.at.by.key.{tag}",
+        ).liberal = True
         _values_of[key] = F
     return _values_of[key]
 
@@ -500,6 +522,8 @@ class EGraph:
                 continue
             if z3.is_and(f):
                 stack.extend(f.children())
+            elif liberal and z3.is_implies(f):
+                stack.append(f.arg(1))  # guarded definition (comprehension element): match through it
             elif z3.is_eq(f) and not z3.is_bool(f.arg(0)):
                 a, b = f.arg(0), f.arg(1)
                 self.union(a, b)
@@ -569,10 +593,15 @@ def _ematch(pat, term, vids, subst, eg):
     return out
 
 
-def instantiate(axioms, ground, fuel=3, max_instances=4000):
+MAX_INSTANCES = 4000
+STATS = None  # debugging: {axiom name: instances}
+
+
+def instantiate(axioms, ground, fuel=3, max_instances=None):
     """Ground-instantiate `axioms` against the ground terms of `ground` (list of z3
     Bool terms), matching modulo the unit equalities known so far.  Returns the list of
     instances (quantifier-free)."""
+    max_instances = max_instances or MAX_INSTANCES
     terms: dict = {}
     for g in ground:
         _subterms(g, terms)
@@ -618,6 +647,8 @@ def instantiate(axioms, ground, fuel=3, max_instances=4000):
                 if key in done:
                     continue
                 done.add(key)
+                if STATS is not None:
+                    STATS[ax.name] = STATS.get(ax.name, 0) + 1
                 inst = z3.substitute(ax.body, [(v, s[v.get_id()]) for v in ax.vars])
                 inst = arith_normalize(inst)
                 new.append(inst)
@@ -678,6 +709,12 @@ def _contains(t, c):
     return c.get_id() in acc
 
 
+def _copy_flags(src, dst):
+    if getattr(src, "liberal", False):
+        dst.liberal = True
+    return dst
+
+
 def solve_equalities(ground, foralls, goal_parts, rounds=40):
     """orient hypotheses `c == t` (c an uninterpreted constant not occurring in t) as
     rewrite rules and apply them everywhere: a sound preprocessing (the equalities are
@@ -711,7 +748,7 @@ def solve_equalities(ground, foralls, goal_parts, rounds=40):
         pair = [found]
         kept.append(found[0] == found[1])
         ground = [z3.substitute(h, pair) for h in ground]
-        foralls = [Forall(f.vars, [z3.substitute(t, pair) for t in f.triggers], z3.substitute(f.body, pair), f.name) for f in foralls]
+        foralls = [_copy_flags(f, Forall(f.vars, [z3.substitute(t, pair) for t in f.triggers], z3.substitute(f.body, pair), f.name)) for f in foralls]
         goal_parts = [z3.substitute(g, pair) for g in goal_parts]
     return ground + kept, foralls, goal_parts
 
@@ -743,9 +780,48 @@ def cross_check(solver, timeout_s=60):
         os.unlink(path)
 
 
-def check_valid(hyps, goal, extra_axioms=(), timeout_ms=60000, fuel=3, want_model=True, exclude=(), seed_terms=()):
+def _find_select_store(t, seen=None):
+    """a subterm Select(Store(a, k, v), i) with i, k not syntactically equal"""
+    seen = seen if seen is not None else set()
+    if t.get_id() in seen or not z3.is_app(t):
+        return None
+    seen.add(t.get_id())
+    if t.decl().kind() == z3.Z3_OP_SELECT and z3.is_app(t.arg(0)) and t.arg(0).decl().kind() == z3.Z3_OP_STORE and t.arg(0).num_args() == 3:
+        return t
+    for c in t.children():
+        r = _find_select_store(c, seen)
+        if r is not None:
+            return r
+    return None
+
+
+def check_valid(hyps, goal, extra_axioms=(), timeout_ms=60000, fuel=3, want_model=True, exclude=(), seed_terms=(), _depth=0):
     """hyps: list of z3 Bool / Forall; goal: z3 Bool / Forall.  Decide hyps |- goal after
-    ground instantiation.  Returns (status, info)."""
+    ground instantiation.  Returns (status, info).
+
+    A goal that reads a just-updated map, Select(Store(a, k, v), i), is proved by cases
+    i = k / i != k (each case with the read resolved), so that the matcher sees the plain
+    value instead of the select-over-store term."""
+    if _depth < 3:
+        g0, trig0 = skolemize_goal(goal)
+        ss = _find_select_store(g0)
+        if ss is not None:
+            st_, k_, v_ = ss.arg(0).arg(0), ss.arg(0).arg(1), ss.arg(0).arg(2)
+            i_ = ss.arg(1)
+            total = {"instances": 0, "seconds": 0.0}
+            worst = "proved"
+            for cond, repl in ((i_ == k_, v_), (i_ != k_, z3.Select(st_, i_))):
+                g1 = z3.substitute(g0, [(ss, repl)])
+                extra_seeds = list(seed_terms) + [z3.substitute(t, [(ss, repl)]) for t in trig0]
+                st, info = check_valid(list(hyps) + [cond], g1, extra_axioms, timeout_ms, fuel, want_model, exclude, extra_seeds, _depth + 1)
+                total["instances"] += info.get("instances", 0) or 0
+                total["seconds"] += info.get("seconds", 0) or 0
+                if st != "proved":
+                    info["instances"], info["seconds"] = total["instances"], round(total["seconds"], 4)
+                    info["case"] = str(cond)[:200]
+                    return st, info
+            total["seconds"] = round(total["seconds"], 4)
+            return worst, total
     t0 = time.time()
     ground_h = [h for h in hyps if not isinstance(h, Forall)]
     local_ax = [h for h in hyps if isinstance(h, Forall)]
